@@ -68,6 +68,12 @@ func (g *inputGen) session(sess, nItems int, v1ok bool) ([]byte, []uint64) {
 		}
 		w := uidFrame(uid, byte(i), sys, v1, g.keyRaw, g.ts)
 		switch k := g.r.Intn(10); {
+		case k == 0 && g.keyRaw == nil && g.r.Chance(1, 3): // ... sent with an untruncated (zero-tailed) payload and a wrong checksum
+			out = append(out, uidFrameUntruncated(uid, byte(i), sys, true)...)
+			g.rejected++
+		case k == 5 && g.keyRaw == nil: // a valid frame whose sender did not truncate the payload
+			out = append(out, uidFrameUntruncated(uid, byte(i), sys, false)...)
+			uids = append(uids, uid)
 		case k == 0: // complete frame with a wrong checksum
 			w = append([]byte(nil), w...)
 			hdr := 10
